@@ -275,10 +275,11 @@ package jet
 //@   ensures [unsigned-integers-cast-to-themselves] 7 <= RvKind(v) && RvKind(v) <= 11 ==> result == RvUint(v)
 //@   ensures [non-numbers-cast-to-zero] !KInt(RvKind(v)) && !(7 <= RvKind(v) && RvKind(v) <= 11) && !KFloat(RvKind(v)) ==> result == 0
 //@ func indirect
-//@   props C10 C07 C06 C12
-//@   loop 0 invariant true
-//@   ensures [indirection-goes-through-every-pointer-and-interface] {C06} !isNil ==> RvKind(rv) != 22 && RvKind(rv) != 20
-//@   ensures [a-nil-link-stops-the-indirection] {C06} isNil ==> (RvKind(rv) == 22 || RvKind(rv) == 20) && RvIsNil(rv)
+//@   props C10 C07 C06 C12 C05
+//@   loop 0 invariant RvKind(old(v)) != 22 && RvKind(old(v)) != 20 ==> v == old(v)
+//@   ensures [indirection-goes-through-every-pointer-and-interface] {C06,C05} !isNil ==> RvKind(rv) != 22 && RvKind(rv) != 20
+//@   ensures [a-nil-link-stops-the-indirection] {C06,C05} isNil ==> (RvKind(rv) == 22 || RvKind(rv) == 20) && RvIsNil(rv)
+//@   ensures [a-value-that-is-neither-pointer-nor-interface-is-returned-as-it-is] {C06,C05} RvKind(v) != 22 && RvKind(v) != 20 ==> rv == v && !isNil
 //@ func indirectInterface
 //@   props C10 C07 C06 C12 C04
 //@   ensures [only-interfaces-are-unwrapped] RvKind(v) != 20 ==> result == v
@@ -311,6 +312,7 @@ package jet
 //@   props C10 C05 C12
 //@   modifies type sliceRanger.i, type sliceRanger.v, type mapRanger.iter, type mapRanger.hasMore, type chanRanger.v
 //@   ensures [a-ranger-or-an-error] err == nil ==> r != nil && cleanup != nil
+//@   callsite (pooledRanger).Setup 0 requires [the-ranger-ranges-the-value-behind-every-pointer-and-interface] {C05} v == lastret("indirect", 0) && RvKind(v) != 22 && RvKind(v) != 20
 //@   ensures [a-value-that-is-a-ranger-ranges-itself] {C05} RvValid(old(v)) && TImpl(RvTypeOf(old(v)), rangerType) ==> err == nil && r == RvInterface(old(v))
 
 // ---- evaluation: every evaluator leaves S(st) as it found it on normal return ----------------------
@@ -318,6 +320,10 @@ package jet
 //@   props C07 C13 C10 C06 C12
 //@   requires RtOK(st) && node != nil && WF(node)
 //@   modifies @Interp
+//@   callsite (*Runtime).evalPrimaryExpressionGroup 4 requires [an-index-expression-evaluates-its-base] {C06,C17} node == as(caller.node, "*IndexExprNode").Base
+//@   callsite (*Runtime).evalPrimaryExpressionGroup 5 requires [an-index-expression-evaluates-its-index] {C06,C17} node == as(caller.node, "*IndexExprNode").Index
+//@   callsite resolveIndex 0 requires [an-index-expression-looks-up-the-evaluated-index-in-the-evaluated-base] {C06,C17} v == siteret("(*Runtime).evalPrimaryExpressionGroup", 4, 0) && index == siteret("(*Runtime).evalPrimaryExpressionGroup", 5, 0) && indexAsStr == ""
+//@   callsite resolveIndex count 1
 //@   callsite (*Runtime).evalPrimaryExpressionGroup 1 requires [ternary-evaluates-its-condition-first] {C04} node == as(caller.node, "*TernaryExprNode").Boolean
 //@   callsite (*Runtime).evalPrimaryExpressionGroup 2 requires [ternary-evaluates-the-first-branch-only-when-true] {C04} node == as(caller.node, "*TernaryExprNode").Left && lastret("isTrue", 0)
 //@   callsite (*Runtime).evalPrimaryExpressionGroup 3 requires [ternary-evaluates-the-second-branch-only-when-false] {C04} node == as(caller.node, "*TernaryExprNode").Right && !lastret("isTrue", 0)
@@ -544,6 +550,7 @@ package jet
 //@   ensures [runtime-valid-after-isset] RtX(st)
 //@   check [identifier-is-set-iff-it-resolves-to-a-non-nil-value] {C17} NTF(node) == NodeIdentifier && !recovered() && ncalls("(*Runtime).resolve") == 1 && ncalls("notNil") == 1 ==> ok == (lastret("(*Runtime).resolve", 1) == nil && lastret("notNil", 0))
 //@   check [chain-is-set-iff-it-resolves-to-a-non-nil-value] {C17} NTF(node) == NodeChain && !recovered() && ncalls("notNil") == 1 ==> ok == (lastret("(*Runtime).evalChainNodeExpression", 1) == nil && lastret("notNil", 0))
+//@   callsite resolveIndex 0 requires [an-index-expression-is-set-iff-the-evaluated-index-is-found-in-the-evaluated-base] {C17} v == caller.base && index == caller.index && indexAsStr == ""
 //@   callsite notNil * requires [existence-is-asked-of-the-resolved-value] {C17} ite(NTF(caller.node) == NodeIdentifier, v == lastret("(*Runtime).resolve", 0), ite(NTF(caller.node) == NodeChain, v == lastret("(*Runtime).evalChainNodeExpression", 0), v == lastret("resolveIndex", 0)))
 
 // Off(a): 1 when the call has an implicit piped first argument (a piped value and no '_' slot), else 0
@@ -644,11 +651,16 @@ package jet
 //@   loop 1 invariant [ctx] context == old(st.context) && (valVarSlot >= 0 ==> st.context == context)
 //@   loop 1 invariant [scope] ite(isLet, st.scope.parent != nil && ite(inNewScope, st.scope.parent.parent == old(st.scope), st.scope.parent == old(st.scope)), ite(inNewScope, st.scope.parent == old(st.scope), st.scope == old(st.scope)))
 //@   loop 0 step [only-a-return-statement-replaces-the-value-of-an-earlier-return] {C09} NTF(list.Nodes[prev(i)]) != NodeReturn ==> returnValue == prev(returnValue) || RvValid(returnValue)
+//@   loop 0 step [a-return-statement-sets-the-value-to-its-operand] {C09} NTF(list.Nodes[prev(i)]) == NodeReturn ==> returnValue == siteret("(*Runtime).evalPrimaryExpressionGroup", 3, 0)
+//@   callsite (*Runtime).evalPrimaryExpressionGroup 3 requires [a-return-statement-evaluates-its-operand] {C09} node == as(caller.list.Nodes[caller.i], "*ReturnNode").Value
+//@   loop 0 step [a-range-hands-its-ranger-back-exactly-once] {C10,C11,C05} ncalls("dynamic:func()") == prev(ncalls("dynamic:func()")) + ite(NTF(list.Nodes[prev(i)]) == NodeRange, 1, 0)
 //@   loop 0 step [if-renders-exactly-one-branch] {C05,C03} NTF(list.Nodes[prev(i)]) == NodeIf ==> ite(lastret("isTrue", 0), visits("(*Runtime).executeList", 0) == prev(visits("(*Runtime).executeList", 0)) + 1 && visits("(*Runtime).executeList", 1) == prev(visits("(*Runtime).executeList", 1)), visits("(*Runtime).executeList", 0) == prev(visits("(*Runtime).executeList", 0)) && visits("(*Runtime).executeList", 1) == prev(visits("(*Runtime).executeList", 1)) + ite(as(list.Nodes[prev(i)], "*IfNode").ElseList != nil, 1, 0))
 //@   loop 1 step [range-body-once-per-element] {C05} visits("(*Runtime).executeList", 2) == prev(visits("(*Runtime).executeList", 2)) + 1 && visits("(Ranger).Range", 1) == prev(visits("(Ranger).Range", 1)) + 1
 //@   loop 1 invariant [range-slots] {C05} ite(!isSet, valVarSlot == -1, ite(len(node.Set.Left) > 1, keyVarSlot == 0 && valVarSlot == 1 && lastret("(Ranger).ProvidesIndex", 0), ite(lastret("(Ranger).ProvidesIndex", 0), keyVarSlot == 0 && valVarSlot == -1, keyVarSlot == -1 && valVarSlot == 0)))
 //@   callsite (*Runtime).executeList 0 requires [if-branch-taken-when-truthy] {C05} lastret("isTrue", 0) && list == caller.node.List
 //@   callsite (*Runtime).executeList 1 requires [else-branch-taken-when-falsy] {C05,C03} !lastret("isTrue", 0) && list == caller.node.ElseList
+//@   callsite (*Runtime).executeList 0 requires [the-if-branch-runs-inside-the-header-scope] {C05,C07} ite(caller.isLet, st.scope.parent != nil && ite(caller.inNewScope, st.scope.parent.parent == old(st.scope), st.scope.parent == old(st.scope)), ite(caller.inNewScope, st.scope.parent == old(st.scope), st.scope == old(st.scope)))
+//@   callsite (*Runtime).executeList 1 requires [the-else-branch-runs-inside-the-header-scope] {C05,C07} ite(caller.isLet, st.scope.parent != nil && ite(caller.inNewScope, st.scope.parent.parent == old(st.scope), st.scope.parent == old(st.scope)), ite(caller.inNewScope, st.scope.parent == old(st.scope), st.scope == old(st.scope)))
 //@   callsite (*Runtime).executeList 2 requires [range-binds-dot-only-without-value-variable] {C05} list == caller.node.List && ite(caller.valVarSlot < 0, st.context == caller.rangeValue, st.context == caller.context)
 //@   callsite (*Runtime).executeList 3 requires [range-else-iff-no-elements] {C05,C03} lastret("(Ranger).Range", 2) && list == caller.node.ElseList
 //@   anypanic
@@ -663,6 +675,8 @@ package jet
 //@   callsite (io.Writer).Write 0 requires [text-is-written-raw-and-unmodified] {C01,C03} w == st.escapeeWriter.Writer && b == caller.node.Text
 //@   callsite (io.Writer).Write count 1
 //@   callsite (Renderer).Render count 1
+//@   callsite dynamic:func() count 1 {C10,C11,C05}
+//@   callsite getRanger count 1 {C10,C11,C05}
 //@   ensures [list-balanced-scope] st.scope == old(st.scope)
 //@   ensures [list-balanced-context] st.context == old(st.context)
 //@   ensures [list-balanced-content] st.content == old(st.content)
